@@ -72,6 +72,19 @@ func Gated(tag string) string {
 
 func Quick(tag string) string { return "q:" + tag }
 
+// GatedBoom and GatedErr complete like Gated, but with a panic / an error that names the call.
+func GatedBoom(tag string) string {
+	arrived <- tag
+	<-gate(tag)
+	panic("boom:" + tag)
+}
+
+func GatedErr(tag string) (string, error) {
+	arrived <- tag
+	<-gate(tag)
+	return "", fmt.Errorf("fail:%s", tag)
+}
+
 type proxy struct {
 	Gated func(string) (string, error)
 	Quick func(string) (string, error)
@@ -688,20 +701,24 @@ func TestReverseProvider(t *testing.T) {
 			client := rig.server.Client(0)
 			prov := reverse.NewProvider(client, pid)
 			prov.AddFunction(Gated, "gated")
+			prov.AddFunction(GatedBoom, "gatedboom")
+			prov.AddFunction(GatedErr, "gatederr")
 			prov.RetryInterval = 10 * time.Millisecond
 			go prov.Listen()
 			providers[pid] = true
 		}
 		drainArrived()
 		tags := make([]string, n)
+		fns := make([]string, n)
 		want := map[string]bool{}
 		done := make([]chan result, n)
 		for i := range tags {
 			tags[i] = fmt.Sprintf("c%d-%d", id, i)
+			fns[i] = rapid.SampledFrom([]string{"gated", "gated", "gated", "gatedboom", "gatederr"}).Draw(rt, "fn")
 			want[tags[i]] = true
 			done[i] = make(chan result, 1)
 			go func(i int) {
-				res, err := rig.caller.InvokeContext(context.Background(), pid, "gated", []interface{}{tags[i]}, stringType)
+				res, err := rig.caller.InvokeContext(context.Background(), pid, fns[i], []interface{}{tags[i]}, stringType)
 				r := result{tag: tags[i], err: err}
 				if err == nil && len(res) == 1 {
 					r.got, _ = res[0].(string)
@@ -720,9 +737,19 @@ func TestReverseProvider(t *testing.T) {
 		for i := range tags {
 			select {
 			case r := <-done[i]:
-				if r.err != nil && problem == "" {
+				switch {
+				case problem != "":
+				case fns[i] == "gatedboom":
+					if r.err == nil || !strings.Contains(r.err.Error(), "boom:"+r.tag) {
+						problem = fmt.Sprintf("reverse caller %d (%s): its provider function panicked with %q; the caller got %q, %v", i, r.tag, "boom:"+r.tag, r.got, r.err)
+					}
+				case fns[i] == "gatederr":
+					if r.err == nil || r.err.Error() != "fail:"+r.tag {
+						problem = fmt.Sprintf("reverse caller %d (%s): its provider function returned the error %q; the caller got %q, %v", i, r.tag, "fail:"+r.tag, r.got, r.err)
+					}
+				case r.err != nil:
 					problem = fmt.Sprintf("reverse caller %d (%s) got error %v", i, r.tag, r.err)
-				} else if r.got != "r:"+r.tag && problem == "" {
+				case r.got != "r:"+r.tag:
 					problem = fmt.Sprintf("reverse caller %d passed %q and received %q", i, r.tag, r.got)
 				}
 			case <-time.After(20 * time.Second):
@@ -731,7 +758,13 @@ func TestReverseProvider(t *testing.T) {
 				}
 			}
 		}
-		ev.S.Case("reverse-provider", canon, true, "reverse="+kind, "reverse-completion="+okind)
+		failing := 0
+		for _, f := range fns {
+			if f != "gated" {
+				failing++
+			}
+		}
+		ev.S.Case("reverse-provider", canon+fmt.Sprintf(" fns=%v", fns), true, "reverse="+kind, "reverse-completion="+okind, fmt.Sprintf("reverse-failing-calls=%v", failing > 0))
 		report(rt, "reverse-provider", "TestReverseProvider", canon, problem)
 	})
 }
